@@ -50,8 +50,9 @@ func (k Kind) String() string { return kindNames[k] }
 
 // Token identifies a child task before its goroutine exists.
 type Token struct {
-	id string
-	s  *Sched
+	id   string
+	site string // file:line of the go statement that created the task
+	s    *Sched
 }
 
 // local is the per-goroutine record. Fields in the first group are touched only by
@@ -62,6 +63,7 @@ type local struct {
 	id    string
 	reply chan grant
 	free  int
+	site  string
 
 	// scheduler side
 	pending   *request
@@ -120,6 +122,7 @@ type Result struct {
 	Log         []string
 	SimTime     time.Duration
 	Leftover    int            // tasks still parked at the end
+	LeftoverTasks []string     // "<id> created at <site> state <state>" for each of them
 	Sites       map[string]int // releases per yield kind/site
 }
 
@@ -217,7 +220,14 @@ func Spawn() *Token {
 	raceEnable()
 	// the id is built by the parent goroutine (never by the scheduler) so that harness
 	// code reading it later has a real happens-before edge (the go statement).
-	return &Token{id: l.id + "." + itoa(ord), s: l.s}
+	t := &Token{id: l.id + "." + itoa(ord), s: l.s}
+	if _, file, line, ok := runtime.Caller(1); ok {
+		if i := strings.LastIndex(file, "/internal/"); i >= 0 {
+			file = file[i+1:]
+		}
+		t.site = file + ":" + itoa(line)
+	}
+	return t
 }
 
 //go:norace
@@ -246,7 +256,7 @@ func Enter(t *Token) {
 	if g >= tlsSize {
 		panic("verifsim: goroutine id exceeds tls table; lower runs per process")
 	}
-	l := &local{s: t.s, id: t.id, reply: make(chan grant)}
+	l := &local{s: t.s, id: t.id, site: t.site, reply: make(chan grant)}
 	tls[g] = l
 	l.yield(KEnter, "")
 }
@@ -424,6 +434,11 @@ func Run(opt Options, main func()) (res Result) {
 	for _, l := range s.tasks {
 		if !l.done {
 			s.res.Leftover++
+			st := "running-or-blocked-outside-scheduler"
+			if l.pending != nil {
+				st = l.pending.kind.String() + ":" + l.pending.site
+			}
+			s.res.LeftoverTasks = append(s.res.LeftoverTasks, l.id+" created at "+l.site+" state "+st)
 		}
 	}
 	s.res.Tasks = len(s.tasks)
